@@ -15,6 +15,7 @@ package main
 // spaces). The lattice has finite height (the dimension can only grow), so the iteration ends.
 
 import (
+	"fmt"
 	"go/token"
 	"math/big"
 	"sort"
@@ -545,6 +546,87 @@ func (P *Prover) karrFacts(blk *ssa.BasicBlock) []Poly {
 			continue
 		}
 		out = append(out, p, p.scale(-1))
+	}
+	return out
+}
+
+// karrRewrite replaces, in p, every phi atom whose value at the entry of blk is pinned by the affine
+// equalities there (index = i + v(v-1)/2 and i = v after a finished loop) by that expression. Only
+// substitutions with integer coefficients are made.
+func (P *Prover) karrRewrite(p Poly, blk *ssa.BasicBlock) Poly {
+	if P.karr == nil {
+		P.inKarr = true
+		P.karr = P.runKarr()
+		P.inKarr = false
+	}
+	s := P.karr.in[blk]
+	if s == nil || s.bottom || len(s.rows) == 0 {
+		return p
+	}
+	out := p.clone()
+	if P.trace {
+		fmt.Printf("karrRewrite at b%d: %d rows; p = %s\n", blk.Index, len(s.rows), P.show(p))
+		for _, r := range s.rows {
+			q := Poly{}
+			for k, v := range r {
+				if v.IsInt() {
+					q[k] = v.Num().Int64()
+				} else {
+					q[k] = 999
+				}
+			}
+			fmt.Printf("   row %s\n", P.show(q))
+		}
+	}
+	for round := 0; round < 4; round++ {
+		first := map[string]bool{}
+		for m := range out {
+			if m == "" || strings.Contains(m, "*") {
+				continue
+			}
+			if a := P.atoms[atoi(m)]; a.kind == aVal {
+				if _, isPhi := a.val.(*ssa.Phi); isPhi {
+					first[m] = true
+				}
+			}
+		}
+		if len(first) == 0 {
+			return out
+		}
+		t := kTop()
+		for _, r := range s.clone().rows {
+			t.add(r, first)
+		}
+		changed := false
+		for i, r := range t.rows {
+			pv := t.piv[i]
+			c, has := out[pv]
+			if !first[pv] || !has {
+				continue
+			}
+			// pv = -(rest of the row); all coefficients must be integers
+			sub := Poly{}
+			okRow := true
+			for k, v := range r {
+				if k == pv {
+					continue
+				}
+				if !v.IsInt() || !v.Num().IsInt64() {
+					okRow = false
+					break
+				}
+				sub[k] = -v.Num().Int64()
+			}
+			if !okRow {
+				continue
+			}
+			delete(out, pv)
+			out = out.add(sub, c)
+			changed = true
+		}
+		if !changed {
+			break
+		}
 	}
 	return out
 }
